@@ -661,8 +661,8 @@ pub fn related(spec: &DistSpec, r: &mut SimRng) -> Option<DistSpec> {
             if !(p > 0.0 && p < 1.0) || n >= 1 << 40 {
                 return None;
             }
-            match b(r, 3) {
-                0 => {
+            match b(r, 4) {
+                0 | 3 => {
                     // same mode floor((n+1)p), different n
                     let m = ((n as f64 + 1.0) * p).floor();
                     let n2 = n.checked_mul([2u64, 4, 10, 1000, 5_000_000][b(r, 5) as usize])?;
@@ -772,7 +772,9 @@ pub fn gen_case(pool: &[DistSpec], r: &mut SimRng, mode: Mode) -> HistCase {
         })
         .collect();
     let span = if b(r, 4) == 0 { 190 } else { 40 };
-    let n_ops = if long { 4000 } else { 10 + b(r, span) as usize };
+    // one long interleaving in four is ten times longer: a collision in hidden state that
+    // matters once per ~1e4 calls needs that many calls of the colliding pair
+    let n_ops = if long { if b(r, 4) == 0 { 40_000 } else { 4000 } } else { 10 + b(r, span) as usize };
     let mut ops = Vec::with_capacity(n_ops);
     for _ in 0..n_ops {
         let o = b(r, objects.len() as u64) as usize;
@@ -802,9 +804,52 @@ pub fn gen_case(pool: &[DistSpec], r: &mut SimRng, mode: Mode) -> HistCase {
     HistCase { isolate: long, kind: if mode == Mode::Purity { "purity-history".into() } else { "serde-history".into() }, objects, streams, ops }
 }
 
+thread_local! {
+    /// shrink predicate: false = execute in this process, true = execute every candidate
+    /// in a fresh child process (needed when the failure depends on process-wide state)
+    static FRESH_PREDICATE: std::cell::Cell<bool> = const { std::cell::Cell::new(false) };
+}
+
 fn fails_same(case: &HistCase, mode: Mode, class: &str) -> bool {
+    if FRESH_PREDICATE.with(|f| f.get()) {
+        return matches!(exec_in_child(case, mode), Ok(Some((c, _))) if c == class);
+    }
     let mut st = HStats::default();
     matches!(exec(case, mode, &mut st), Err(f) if f.class == class)
+}
+
+/// Execute one history in a fresh child process (`verif-sim hist-exec`); returns the
+/// failure (class, detail) if any.
+pub fn exec_in_child(case: &HistCase, mode: Mode) -> Result<Option<(String, String)>, String> {
+    use std::io::Write;
+    use std::process::{Command, Stdio};
+    let exe = std::env::current_exe().map_err(|e| e.to_string())?;
+    let mut child = Command::new(exe).arg("hist-exec").stdin(Stdio::piped()).stdout(Stdio::piped()).stderr(Stdio::null()).spawn().map_err(|e| e.to_string())?;
+    let req = json!({"mode": if mode == Mode::Purity { "purity" } else { "serde" }, "case": case});
+    child.stdin.take().unwrap().write_all(serde_json::to_string(&req).unwrap().as_bytes()).map_err(|e| e.to_string())?;
+    let out = child.wait_with_output().map_err(|e| e.to_string())?;
+    if !out.status.success() {
+        return Err(format!("child exited with {}", out.status));
+    }
+    let v: Value = serde_json::from_slice(&out.stdout).map_err(|e| e.to_string())?;
+    Ok(v["class"].as_str().map(|c| (c.to_string(), v["detail"].as_str().unwrap_or("").to_string())))
+}
+
+/// child side of `exec_in_child`
+pub fn hist_exec_main() -> i32 {
+    let mut input = String::new();
+    if std::io::Read::read_to_string(&mut std::io::stdin(), &mut input).is_err() {
+        return 2;
+    }
+    let Ok(req) = serde_json::from_str::<Value>(&input) else { return 2 };
+    let Ok(case) = serde_json::from_value::<HistCase>(req["case"].clone()) else { return 2 };
+    let mode = if req["mode"].as_str() == Some("serde") { Mode::Serde } else { Mode::Purity };
+    let mut st = HStats::default();
+    match exec(&case, mode, &mut st) {
+        Ok(()) => println!("{}", json!({"class": null})),
+        Err(f) => println!("{}", json!({"class": f.class, "detail": f.detail})),
+    }
+    0
 }
 
 pub fn shrink(case: &HistCase, mode: Mode, fail: &HFail) -> (HistCase, u32) {
@@ -815,24 +860,39 @@ pub fn shrink(case: &HistCase, mode: Mode, fail: &HFail) -> (HistCase, u32) {
         return (case.clone(), 0);
     }
     let mut steps = 1;
-    let mut changed = true;
-    let mut rounds = 0;
-    while changed && rounds < 5 {
-        changed = false;
-        rounds += 1;
-        let mut i = best.ops.len();
-        while i > 0 {
-            i -= 1;
-            if best.ops.len() <= 1 {
+    // minimisation is bounded in wall time: a long interleaving (40 000 calls) must not
+    // turn the report of a violation into a run that does not end
+    let t0 = std::time::Instant::now();
+    let expired = || t0.elapsed().as_secs_f64() > 30.0;
+    // delta debugging: remove chunks of halving size first, single operations last
+    let mut chunk = (best.ops.len() / 2).max(1);
+    loop {
+        let mut removed_any = false;
+        let mut start = 0;
+        while start < best.ops.len() && best.ops.len() > 1 && !expired() {
+            let end = (start + chunk).min(best.ops.len());
+            if end - start >= best.ops.len() {
                 break;
             }
             let mut c = best.clone();
-            c.ops.remove(i);
+            c.ops.drain(start..end);
             if fails_same(&c, mode, &class) {
                 best = c;
                 steps += 1;
-                changed = true;
+                removed_any = true;
+            } else {
+                start = end;
             }
+        }
+        if expired() {
+            break;
+        }
+        if chunk == 1 {
+            if !removed_any {
+                break;
+            }
+        } else {
+            chunk = (chunk / 2).max(1);
         }
     }
     // drop faults
@@ -1007,16 +1067,38 @@ impl Engine for HistEngine {
                 if !seen.insert(format!("{}|{}", f.class, f.family)) {
                     continue;
                 }
-                let (min_case, steps) = shrink(&case, self.mode, &f);
+                let (mut min_case, mut steps) = shrink(&case, self.mode, &f);
                 let mut st2 = HStats::default();
-                let detail = match exec(&min_case, self.mode, &mut st2) {
+                let mut detail = match exec(&min_case, self.mode, &mut st2) {
                     Err(f2) => f2.detail,
                     Ok(()) => f.detail.clone(),
                 };
                 let mut sig = BTreeMap::new();
                 sig.insert("family".into(), f.family.clone());
                 sig.insert("class".into(), f.class.clone());
-                let mut cj = serde_json::to_value(&min_case).unwrap();
+                // A replay file must fail in a FRESH process.  A failure that depends on
+                // process-wide hidden state (a static / thread-local memo filled by earlier
+                // calls) may not: then minimise with a fresh-process predicate, and if even the
+                // full history passes on its own, the replay is "this case up to history h".
+                let same = |r: &Result<Option<(String, String)>, String>| matches!(r, Ok(Some((c, _))) if *c == f.class);
+                let mut cj;
+                if same(&exec_in_child(&min_case, self.mode)) {
+                    cj = serde_json::to_value(&min_case).unwrap();
+                } else if same(&exec_in_child(&case, self.mode)) {
+                    FRESH_PREDICATE.with(|p| p.set(true));
+                    let (m2, s2) = shrink(&case, self.mode, &f);
+                    FRESH_PREDICATE.with(|p| p.set(false));
+                    min_case = m2;
+                    steps = s2;
+                    if let Ok(Some((_, d))) = exec_in_child(&min_case, self.mode) {
+                        detail = d;
+                    }
+                    detail = format!("{detail} [minimised with every candidate executed in a fresh process: the failure depends on process-wide state]");
+                    cj = serde_json::to_value(&min_case).unwrap();
+                } else {
+                    detail = format!("{} [fails only after histories 0..{h} of case {index} ran in the same process: process-wide hidden state; the replay re-runs that prefix in a fresh process]", f.detail);
+                    cj = json!({"kind": "history-prefix", "case_index": index, "upto": h, "seed": ctx.seed});
+                }
                 cj["minimised_from"] = json!({"ops": case.ops.len(), "objects": case.objects.len(), "shrink_steps": steps});
                 res.violations.push(Violation { class: f.class.clone(), detail, sig, case: cj });
             }
@@ -1036,7 +1118,35 @@ impl Engine for HistEngine {
         res.digest = d.0;
         res
     }
-    fn replay(&self, _ctx: &Ctx, case: &Value) -> Result<Vec<Violation>, String> {
+    fn fresh_worker_per_case(&self) -> bool {
+        // a change that adds process-wide hidden state must not make the result of a case
+        // depend on which cases the same worker ran before
+        true
+    }
+    fn replay(&self, ctx: &Ctx, case: &Value) -> Result<Vec<Violation>, String> {
+        if case["kind"].as_str() == Some("history-prefix") {
+            let index = case["case_index"].as_u64().ok_or("case_index")? as usize;
+            let upto = case["upto"].as_u64().ok_or("upto")? as usize;
+            println!("replay: histories 0..={upto} of case {index}, in this fresh process");
+            let pool = pool(ctx.seed);
+            let mut out = vec![];
+            for h in 0..=upto {
+                let mut r = SimRng::new(mix(&[ctx.seed, 0xC14, self.mode as u64, index as u64, h as u64]));
+                let c = gen_case(&pool, &mut r, self.mode);
+                let mut st = HStats::default();
+                if let Err(f) = exec(&c, self.mode, &mut st) {
+                    println!("replay: history {h}: outcome class={} at op {}: {}", f.class, f.op_index, f.detail);
+                    let mut sig = BTreeMap::new();
+                    sig.insert("family".into(), f.family.clone());
+                    sig.insert("class".into(), f.class.clone());
+                    out.push(Violation { class: f.class, detail: f.detail, sig, case: case.clone() });
+                }
+            }
+            if out.is_empty() {
+                println!("replay: outcome ok");
+            }
+            return Ok(out);
+        }
         let c: HistCase = serde_json::from_value(case.clone()).map_err(|e| format!("bad replay case: {e}"))?;
         println!("replay: {} objects, {} streams, {} ops", c.objects.len(), c.streams.len(), c.ops.len());
         for (i, o) in c.objects.iter().enumerate() {
